@@ -1356,6 +1356,7 @@ def gen_plan(seed: int, tier: str) -> dict:
             f["direct"] = True
         return f
 
+
     def mutation():
         n = rng.choice(names)
         r = rng.random()
@@ -1501,6 +1502,14 @@ def gen_plan(seed: int, tier: str) -> dict:
             for _ in range(rng2.choice([0, 1, 1, 2])):
                 tasks.append({"t": "w", "w": mutation()})
             ops.insert(rng2.randrange(len(ops) + 1), {"op": "par", "id": nid(), "tasks": tasks, "threads": True})
+    for op in ops:
+        # a Windows-style spelling: on this platform another (non-existent) name
+        if op["op"] in ("lr", "load") and "/" in op.get("name", "") and rng2.random() < 0.1:
+            op["name"] = op["name"].replace("/", "\\")
+        elif op["op"] == "par":
+            for tk in op["tasks"]:
+                if tk["t"] == "lr" and "/" in tk.get("name", "") and rng2.random() < 0.06:
+                    tk["name"] = tk["name"].replace("/", "\\")
     # application code passing its own render context to get_template() / load()
     for op in ops:
         if op["op"] in ("lr", "load") and rng2.random() < 0.08:
